@@ -50,7 +50,9 @@ def decoding_components(rep, idx):
             continue
         rep.ok("C01.1", c.fi.site, "Case patterns come from self.bus.memory_map.window_patterns()",
                f"loop at line {r.L.lineno}; Case pattern {ir.show(r.case_pat)}")
-        derived = r.case_pat == r.pat or (r.case_pat[0] == 'sub' and r.case_pat[1] == r.pat)
+        def from_pat(e):
+            return e == r.pat or (e[0] == 'sub' and e[1] == r.pat) or (e[0] == 'phi' and from_pat(e[2]) and from_pat(e[3]))
+        derived = from_pat(r.case_pat)
         rep.check(derived, "C01.1", c.fi.site, "the Case pattern is (a slice of) the pattern of the same window_patterns() tuple",
                   f"Case uses {ir.show(r.case_pat)}")
         rep.ok("C01.2", c.fi.site, "the subordinate is looked up by the map at position 0 of the same tuple",
